@@ -85,13 +85,13 @@ def run(tier):
     bound = 2 if tier == "thorough" else 1
     sched = 0
     tasks = [(functools.partial(sched_execute, v), sched_check, bound) for v in SCHED_VARIANTS]
-    for v, r in zip(SCHED_VARIANTS, scheddfs.explore_many(tasks)):
+    for v, r in zip(SCHED_VARIANTS, (scheddfs.explore_many(tasks) if tier != "thorough" else scheddfs.explore_many_capped(tasks, 1, 600))):
         sched += r["executions"]
         for (key, detail), choices in r["violations"]:
             rep.add(Violation(key, f"[answer submitted from an application thread, variant {v}, bound {bound}] choices {choices}: {detail}",
                               {"sched": v, "choices": choices}))
         rep.sample({"schedule_exploration": f"application thread(s) in send_answer, variant {v}, line granularity in route_answer/send_message/close path",
-                    "preemption_bound": bound, "executions": r["executions"], "distinct_outcomes": len(r["outcomes"]), "branching_points": r["max_points"]})
+                    "preemption_bound": bound, "bound_completed_without_cap": r.get("bound_completed", bound), "capped": r.get("capped", False), "executions": r["executions"], "distinct_outcomes": len(r["outcomes"]), "branching_points": r["max_points"]})
     rep.cov["schedules"] = sched
     depth = 6 if tier == "thorough" else 4
     tot = monitors.run_models(rep, models(tier), depth, dedup_depth_plain=(depth - 2), time_cap=900 if tier == "thorough" else 100)
